@@ -104,11 +104,14 @@ def parse_fn_block(lines, i, end_marker='end'):
             elif words[0] in ('loop-start', 'loop-end'):
                 cur = []
                 blk.anchors.append((words[0], '', int(words[1]), cur))
+            elif words[0] == 'r5-proof':
+                cur = []
+                blk.anchors.append(('r5-proof', '', 1, cur))
             elif words[0] in ('before-result', 'at-end'):
                 cur = []
                 blk.anchors.append((words[0], '', 1, cur))
-            elif words[0] in ('before', 'after', 'after-block'):
-                m = re.match(r'(before|after-block|after)\s+"(.*)"\s*(#(\d+))?$', body)
+            elif words[0] in ('before', 'after', 'after-block', 'before?', 'after?', 'after-block?'):
+                m = re.match(r'(before\??|after-block\??|after\??)\s+"(.*)"\s*(#(\d+))?$', body)
                 if not m:
                     raise Drift('bad anchor directive: ' + body)
                 cur = []
@@ -413,7 +416,7 @@ def r5_expand(body, kind, occ, qual_name):
     P and B are copied from the source text."""
     toks = lex(body)
     s = sig(toks)
-    meth = {'map-collect': 'map', 'all': 'all', 'any': 'any'}[kind]
+    meth = {'map-collect': 'map', 'map-iter': 'map', 'all': 'all', 'any': 'any'}[kind]
     hits = []
     for pos in range(len(s) - 3):
         if toks[s[pos]].text == '.' and toks[s[pos + 1]].kind == 'ident' and toks[s[pos + 1]].text == meth and toks[s[pos + 2]].text == '(' and toks[s[pos + 3]].text == '|':
@@ -475,7 +478,10 @@ def r5_expand(body, kind, occ, qual_name):
     recv_start = toks[s[r + 1]].start
     recv = body[recv_start:toks[s[pos]].start].strip()
     if kind == 'map-collect':
-        new = '{ let mut vx_v = Vec::new(); for %s in %s { vx_v.push(%s); } vx_v }' % (pat, recv, cbody)
+        new = '{ let mut vx_v = Vec::new(); for %s in %s { vx_v.push(%s); } /*@R5E@*/ vx_v }' % (pat, recv, cbody)
+    elif kind == 'map-iter':
+        # the lazily mapped iterator is represented by the vector of the items it yields
+        new = '{ let mut vx_v = Vec::new(); for %s in %s { vx_v.push(%s); } /*@R5E@*/ vx_v }.into_iter()' % (pat, recv, cbody)
     elif kind == 'all':
         new = '{ let mut vx_all = true; for %s in %s { if vx_all && !(%s) { vx_all = false; } } vx_all }' % (pat, recv, cbody)
     else:
@@ -682,6 +688,12 @@ def annotate_fn(sf, item, blk, counts, meta, mode, qual_name, extra_ensures=None
     for where, anchor, occ, lines in blk.anchors:
         if where in ('loop-start', 'loop-end'):
             continue
+        if where == 'r5-proof':
+            if '/*@R5E@*/' not in body:
+                raise Drift('%s: r5-proof without an R5 map expansion' % qual_name)
+            body = body.replace('/*@R5E@*/', '\n' + '\n'.join(lines) + '\n', 1)
+            counts.bump('R3')
+            continue
         if where == 'at-end':
             e = body.rstrip().rfind('}')
             body = body[:e] + '\n' + '\n'.join(lines) + '\n' + body[e:]
@@ -699,7 +711,15 @@ def annotate_fn(sf, item, blk, counts, meta, mode, qual_name, extra_ensures=None
             body = '\n'.join(blines)
             counts.bump('R3')
             continue
-        blines, li = line_anchor(body, anchor, occ)
+        optional = where.endswith('?')
+        where = where.rstrip('?')
+        try:
+            blines, li = line_anchor(body, anchor, occ)
+        except Drift:
+            if optional:
+                counts.bump('optional-anchor-skipped')
+                continue
+            raise
         ins = list(lines)
         if where == 'after-block':
             off = sum(len(l) + 1 for l in blines[:li])
@@ -726,6 +746,7 @@ def annotate_fn(sf, item, blk, counts, meta, mode, qual_name, extra_ensures=None
 
     for mk, mt in marker_text.items():
         body = body.replace(mk, mt)
+    body = body.replace('/*@R5E@*/', '')
     for key, ntext in placeholders.items():
         body = body.replace('fn %s() {}' % key, ntext)
 
@@ -912,7 +933,7 @@ def assemble(unit, mode='verify', vacuity=False, seen=None, top=True, only_props
     out += deferred
     body = '\n'.join(out)
     if top:
-        hdr = '#![allow(unused_imports, unused_variables, unused_mut, dead_code, unused_assignments, unused_parens, non_snake_case, unreachable_code)]\nuse vstd::prelude::*;\nuse vstd::std_specs::iter::IteratorSpec;\nuse std::cmp::Ordering;\nverus! {\n'
+        hdr = '#![allow(unused_imports, unused_variables, unused_mut, dead_code, unused_assignments, unused_parens, non_snake_case, unreachable_code)]\nuse vstd::prelude::*;\nuse vstd::std_specs::iter::IteratorSpec;\nuse std::cmp::Ordering;\nuse std::collections::HashMap;\nuse std::hash::Hash;\nverus! {\n'
         ftr = '\n'
         if vacuity:
             ftr += 'proof fn vx_canary() ensures false {}\n'
